@@ -71,7 +71,7 @@ class BaseProp:
         self.step_proofs()
         self.step_correspondence()
         self.extra_checks()
-        if self.broken and not self.new_violations():
+        if (self.broken and not self.new_violations()) or os.environ.get('VERIF_FORCE_SEARCH'):
             self.step_search()
         return self.report()
 
